@@ -570,6 +570,7 @@ pub fn run(pool: &Pool, spec: &CrashSpec, kf: &Known) -> Outcome {
                         trace: true,
                         pre_image: vec![],
                         faults: vec![],
+                sched: None,
                     }
                 })
                 .collect();
@@ -608,6 +609,7 @@ pub fn run(pool: &Pool, spec: &CrashSpec, kf: &Known) -> Outcome {
                         trace: false,
                         pre_image: full,
                         faults: vec![],
+                sched: None,
                     });
                     rec_meta.push((wi, CrashState { p: usize::MAX, applied: vec![], desc: "conformance".into() }));
                 }
@@ -630,6 +632,7 @@ pub fn run(pool: &Pool, spec: &CrashSpec, kf: &Known) -> Outcome {
                         trace: false,
                         pre_image: applied.clone(),
                         faults: vec![],
+                sched: None,
                     });
                     rec_meta.push((wi, CrashState { p: st.p, applied, desc: st.desc }));
                 }
